@@ -62,7 +62,14 @@ struct Actor {
         sk::wait_until([this, ticket] { return done >= ticket || !sk::alive(pid); }, timeout_ns);
         return done >= ticket;
     }
-    bool call(std::function<void()> fn, std::int64_t timeout_ns = 120 * kSec) { return wait(post(std::move(fn)), timeout_ns); }
+    // Synchronous: the closure usually references the caller's stack, so the caller never moves on while it
+    // may still run. Returns false only if the process died. A command that neither returns nor dies within a
+    // very generous bound abandons the run (reported as kernel.abort), it is never silently skipped.
+    bool call(std::function<void()> fn, std::int64_t /*hint_ns*/ = 0) {
+        const bool ok = wait(post(std::move(fn)), 200000 * kSec);
+        if (!ok && alive()) sk::fail_run("command on '" + name + "' did not return within 200000 simulated seconds");
+        return ok;
+    }
     bool alive() const { return pid >= 0 && sk::alive(pid); }
     void shutdown(std::int64_t timeout_ns = 30 * kSec) {
         if (pid < 0) return;
@@ -141,6 +148,12 @@ struct PeerConn {
     std::array<std::uint8_t, 32> key{};
     bool have_key = false;
     std::string last_error;
+    // After the handshake a real peer reads and writes concurrently. The scripted peer does the same:
+    // a reader fiber of its process drains the socket into an inbox, so that a blocking send can never
+    // deadlock against the node's own blocking reply.
+    struct Rx { std::deque<std::vector<std::uint8_t>> frames; bool closed = false; std::string error; };
+    std::shared_ptr<Rx> rx;
+    std::int64_t timeout_ms = 5000;
 
     bool open(const std::string& host, std::uint16_t port) {
         fd = ::socket(AF_INET, SOCK_STREAM, 0);
@@ -153,6 +166,8 @@ struct PeerConn {
         return true;
     }
     void set_timeout(std::int64_t ms) {
+        timeout_ms = ms;
+        if (rx) return;  // the reader fiber owns the socket's receive side; waits happen on the inbox
         timeval tv{static_cast<time_t>(ms / 1000), static_cast<suseconds_t>((ms % 1000) * 1000)};
         ::setsockopt(fd, SOL_SOCKET, SO_RCVTIMEO, &tv, sizeof tv);
     }
@@ -211,8 +226,36 @@ struct PeerConn {
     bool send_signed_with(const en::protocol::Message& m, const std::array<std::uint8_t, 32>& sign_key) {
         return send_plain(en::protocol::encode_signed(m, std::span<const std::uint8_t>(sign_key)));
     }
+    void start_reader() {
+        rx = std::make_shared<Rx>();
+        timeval tv{0, 0};
+        ::setsockopt(fd, SOL_SOCKET, SO_RCVTIMEO, &tv, sizeof tv);
+        auto state = rx;
+        const int sock = fd;
+        const auto k = key;
+        sk::go("peer.reader", [state, sock, k] {
+            PeerConn c;
+            c.fd = sock;
+            c.key = k;
+            for (;;) {
+                auto f = c.recv_plain_direct();
+                if (!f) { state->closed = true; state->error = c.last_error; return; }
+                state->frames.push_back(std::move(*f));
+            }
+        });
+    }
     // receive one transport frame and return its plaintext; nullopt on EOF/timeout/error
     std::optional<std::vector<std::uint8_t>> recv_plain() {
+        if (rx) {
+            auto state = rx;
+            sk::wait_until([state] { return !state->frames.empty() || state->closed; }, timeout_ms * kMs);
+            if (!state->frames.empty()) { auto f = std::move(state->frames.front()); state->frames.pop_front(); return f; }
+            last_error = state->closed ? "closed: " + state->error : "timeout";
+            return std::nullopt;
+        }
+        return recv_plain_direct();
+    }
+    std::optional<std::vector<std::uint8_t>> recv_plain_direct() {
         std::uint8_t hdr[16];
         if (recv_all(hdr, 16) != 1) return std::nullopt;
         const std::uint32_t len = (std::uint32_t(hdr[12]) << 24) | (std::uint32_t(hdr[13]) << 16) | (std::uint32_t(hdr[14]) << 8) | hdr[15];
@@ -260,7 +303,9 @@ inline bool scripted_handshake(PeerConn& c, const PeerIdentity& me, const en::Pe
     auto ack = c.recv_message();
     if (!ack || ack->type != en::protocol::MessageType::HandshakeAck) return false;
     const auto* p = std::get_if<en::protocol::HandshakeAckPayload>(&ack->payload);
-    return p && p->accepted;
+    if (!(p && p->accepted)) return false;
+    c.start_reader();
+    return true;
 }
 
 // ---------------------------------------------------------------- a real node hosted in an actor
@@ -290,7 +335,14 @@ struct NodeProc {
             if (listen) { node->start_transport(0); port = node->transport_port(); }
         });
     }
-    template <class F> bool run(F&& f, std::int64_t timeout_ns = 120 * kSec) { return actor.call([this, f] { f(*node); }, timeout_ns); }
+    // Runs f on the node's main fiber. The closure may reference the caller's stack, so the caller must not
+    // move on before it finished: if the process dies the call returns false (the closure is gone with it);
+    // if it neither finishes nor dies within the (very generous) bound the whole run is abandoned.
+    template <class F> bool run(F&& f, std::int64_t timeout_ns = 100000 * kSec) {
+        const bool ok = actor.call([this, f] { f(*node); }, timeout_ns);
+        if (!ok && actor.alive()) sk::fail_run("command on node '" + actor.name + "' did not return within " + std::to_string(timeout_ns / kSec) + " simulated seconds");
+        return ok;
+    }
     void stop() {
         if (!actor.alive()) { (void)node.release(); return; }
         actor.call([this] { node.reset(); }, 60 * kSec);
